@@ -34,17 +34,18 @@ Qed.
 
 (* a concrete history: array, mesh over it, the same mesh merged twice, a copy, transforms and an edit *)
 Definition ex_hist : list (op (T:=Qc)) :=
-  [ ONew false [IFresh (q 0 1, q 0 1, q 0 1); IFresh (q 1 1, q 0 1, q 0 1); IFresh (q 0 1, q 2 1, q 0 1)] [] [] [] corn0 (-1);
+  [ ONew ByUser [IFresh (q 0 1, q 0 1, q 0 1); IFresh (q 1 1, q 0 1, q 0 1); IFresh (q 0 1, q 2 1, q 0 1)] [] [] [] corn0 [] (-1);
     OFromArrays 0 [[0;1];[1;2];[0;2]]%Z [[0;1;2]]%Z [] (mkcorn [0;1;2] [0;0;0] [] [] [] [])%Z 2;
     OMerge [1%nat; 1%nat];
     OCopy 2 false;
     OTranslate 2 (PVal (q 1 2, q 0 1, q 0 1));
     ONormalize 3 true;
     OEdit 0 1 0 (q 5 1);
+    OAttrSet 1 0 7 [3; -1; 4]%Z; OCopy 1 true; OAttrEdit 1 0 7 2 9%Z; OElemEdit 4 1 0 [1; 2; 0]%Z;
     ORing 3 1 true [(q 0 1, q 0 1, q 1 1); (q 1 1, q 0 1, q 0 1); (q (-1) 2, q 1 1, q 0 1); (q (-1) 2, q (-1) 1, q 0 1);
                     (q 1 1, q 0 1, q 0 1)] [] [[0;1;2];[0;2;3];[0;3;4]]%Z corn0 ].
 
-Example ex_hist_runs : exists w, run QcO (w0 (T:=Qc)) ex_hist = Some w /\ length (wobjs w) = 5%nat.
+Example ex_hist_runs : exists w, run QcO (w0 (T:=Qc)) ex_hist = Some w /\ length (wobjs w) = 6%nat.
 Proof. vm_compute. eexists. split; reflexivity. Qed.
 
 Example ex_hist_ok : ok_hist QcO (w0 (T:=Qc)) ex_hist.
@@ -65,7 +66,7 @@ Proof. intros w H. eapply invariant_all_histories; eauto using wf_w0, ex_hist_ok
 (* the necessity of the invariant (the mechanism of the repaired defects): when two vertex ids DO share a buffer,
    the in-place loop of translate moves that vertex twice *)
 Definition shared_world : world (T:=Qc) :=
-  mkw (mkmem (wr (PositiveMap.empty _) 1%positive (q 1 1, q 0 1, q 0 1)) 2%positive) [mkobj [1%positive; 1%positive] [] [] [] corn0 0].
+  mkw (mkmem (wr (PositiveMap.empty _) 1%positive (q 1 1, q 0 1, q 0 1)) 2%positive) [mkobj [1%positive; 1%positive] [] [] [] corn0 [] 0].
 Example shared_buffer_moves_twice :
   exists w', step QcO shared_world (OTranslate 0 (PVal (q 1 1, q 0 1, q 0 1))) = Some w'
              /\ obj_coords QcO w' 0 = [(q 3 1, q 0 1, q 0 1); (q 3 1, q 0 1, q 0 1)].
@@ -77,9 +78,9 @@ Proof. eexists. split; vm_compute; reflexivity. Qed.
    IShare); a transform of the result then moves the source. Witness: a triangle, its
    boundary polyline on the same three buffers, translate the boundary by (1,0,0). *)
 Definition alias_hist : list (op (T:=Qc)) :=
-  [ ONew false [IFresh (q 0 1, q 0 1, q 0 1); IFresh (q 1 1, q 0 1, q 0 1); IFresh (q 0 1, q 1 1, q 0 1)]
-         [[0;1];[1;2];[0;2]]%Z [[0;1;2]]%Z [] (mkcorn [0;1;2] [0;0;0] [] [] [] [])%Z 2;
-    ONew false [IShare 0 0; IShare 0 1; IShare 0 2] [[0;1];[1;2];[0;2]]%Z [] [] corn0 1 ].
+  [ ONew ByUser [IFresh (q 0 1, q 0 1, q 0 1); IFresh (q 1 1, q 0 1, q 0 1); IFresh (q 0 1, q 1 1, q 0 1)]
+         [[0;1];[1;2];[0;2]]%Z [[0;1;2]]%Z [] (mkcorn [0;1;2] [0;0;0] [] [] [] [])%Z [] 2;
+    ONew ByUser [IShare 0 0; IShare 0 1; IShare 0 2] [[0;1];[1;2];[0;2]]%Z [] [] corn0 [] 1 ].
 Lemma derived_alias_moves_the_source :
   exists (w1 w2 : world (T:=Qc)) o i j,
     run QcO (w0 (T:=Qc)) alias_hist = Some w1 /\ wf w1 /\ ok_hist QcO (w0 (T:=Qc)) alias_hist
